@@ -242,12 +242,19 @@ PROPS = {
         "assumptions": ["fewer than 1000 retained updates per case (observation goes through one subscriber's buffer)"],
     },
     "C11": {
-        "stages": [{"kind": "cases", "name": "lookups", "driver": "C11", "n": {"quick": 1500, "thorough": 20000}}],
+        "stages": [{"kind": "cases", "name": "lookups", "driver": "C11", "n": {"quick": 1500, "thorough": 20000}},
+                   {"kind": "cases", "name": "templates", "driver": "URITPL", "n": {"quick": 400, "thorough": 6000}}],
         "rule": "sequences of 5-30 (topic, selector) lookups, and 2-4 goroutines sharing one store, against stores without cache, of size 0, tiny "
                 "(1-3 entries x 1-2 shards) and default; selectors: literals, every RFC 6570 operator/modifier, malformed templates; topics: expansions for "
                 "random values over unreserved, reserved (gen-delims, sub-delims) and never-literal characters, near misses (a character dropped or added, the case of one letter flipped), a literal prefix followed by reserved characters, strings around the cache-key separator '_' and pairs built to collide under key concatenation; templates padded with blanks, tabs and newlines (not templates: they match only themselves); a corpus of two templates whose compiled-template cache keys share a 32-bit FNV-1a hash (found by a birthday search at run time), evaluated in both orders on stores of three sizes; every answer "
-                "compared with the cached model and with a fresh uncached evaluation by the library. non-trivial = sequence has both true and false answers",
-        "trusted": ["uritemplate + Go regexp as oracle (Section variable tmatch); layer B (the template language itself) is not modelled",
+                "compared with the cached model and with a fresh uncached evaluation by the library. non-trivial = sequence has both true and false answers. "
+                "templates: generated selectors (1-4 parts: literals over ASCII punctuation, pct-triplets, 2-4 byte UTF-8, or expressions with every operator, 1-6 variables, names with dots and triplets, "
+                "prefix and explode modifiers, invalid prefixes; 30% mutated by dropping / inserting braces, blanks, controls, invalid UTF-8, U+FFFD, non-characters; expressions of 999-1500 variables around the "
+                "regexp package's repetition limit) x 8-12 topics each (the selector itself, expansions by the library for string values and for list / associative values, near misses: a byte dropped or inserted, "
+                "a suffix, another variable name; random strings over the separators): the model must agree with the library on parsed / compiled / every MatchString, the hub (cached and uncached store) must "
+                "answer '*' or equality or the library's fresh answer without panicking, every string-valued expansion must match, and no topic proved not to be an expansion may match. "
+                "non-trivial = a compilable template with both matching and non-matching topics",
+        "trusted": ["Go's regexp engine and the uritemplate library are modelled (Model/UriTemplate.v) and compared differentially, not verified; in the cache theorems the library is any function (Section variable tmatch)",
                     "hashicorp LRU modelled as a map that may forget any entry at any time"],
         "assumptions": [],
     },
